@@ -43,6 +43,7 @@ class TLCResult:
 
 _LINE = re.compile(r'^<<"([A-Z]+)", (.*)>>$')
 _STATS = re.compile(r"(\d+) states generated, (\d+) distinct states found")
+_SIMSTATS = re.compile(r"The number of states generated: (\d+)")
 _DEPTH = re.compile(r"The depth of the complete state graph search is (\d+)")
 _COV = re.compile(r"^<(\w+) line \d+, col \d+ to line \d+, col \d+ of module (\w+)>: (\d+):(\d+)")
 _VIOL = re.compile(r"Error: Invariant (\w+) is violated|Error: Action property (\w+) is violated|"
@@ -117,6 +118,10 @@ def run_tlc(spec_dir: str | Path, module: str, cfg: str, workers: int = 1, timeo
         m = _STATS.search(line)
         if m:
             res.generated, res.distinct = int(m.group(1)), int(m.group(2))
+            continue
+        m = _SIMSTATS.search(line)
+        if m:
+            res.generated = int(m.group(1))
             continue
         m = _DEPTH.search(line)
         if m:
